@@ -145,9 +145,13 @@ func (e *Env) tr(x ast.Expr) Val {
 				return Val{Sort: g.heapSort(name), Term: g.heapGet(e.state(), name)}
 			}
 			if wc, ok := g.w.world[p]; ok {
-				return Val{Sort: wc.Sort, Term: g.heapGet(e.state(), p)}
+				return Val{Sort: g.heapSort(p), Term: g.heapGet(e.state(), p), GoT: nil}
+				_ = wc
 			}
-			g.fail("unknown world component %s", p)
+			if px, ok2 := worldPath(n.X); !ok2 || px == "W" || px == "H" {
+				g.fail("unknown world component %s", p)
+			}
+			// a field of a world component: W.storage.params.CollateralPrice
 		}
 		v := e.tr(n.X)
 		return e.field(v, n.Sel.Name, exprString(n))
